@@ -2,6 +2,7 @@ SPECIFICATION Spec
 CONSTANTS
   Keys = {"a", "ab"}
   MaxLen = 9
+  Switch = 2
   MaxQueue = 3
 INVARIANTS QueueBounded HeldMatches
 VIEW View
